@@ -4,19 +4,20 @@ import json
 from . import tlc, token
 from . import e2_token as e2
 
-INV_OF = {"C06": {"Informed"},
+INV_OF = {"C06": {"Informed"}, "C11": set(),
           "C08": {"Capacity", "MutualExclusion", "TypeOK"},
           "C09": {"ObserversSurvive", "Informed", "NoOrphanEmptyFile", "ReclaimOnlyAfterEnd", "Capacity"}}
 # events whose mismatch concerns each property
-EVENTS_OF = {"C06": ("sched.dep", "h.quiescent"),     # a job that waits for ever with the token free: the submission steps, the quiescent points
+EVENTS_OF = {"C11": ("tok.init", "tok.info", "h.start", "tok.acq", "end"),   # the next scheduler on the token directory a dead one left
+             "C06": ("sched.dep", "h.quiescent", "tok.evt.info"),     # a job that waits for ever with the token free: the submission steps, the quiescent points
              "C08": ("tok.acq", "tok.create", "tok.file.delete", "tok.watch.reclaim", "tok.evt.cached", "tok.rel", "h.start"),
-             "C09": ("sched.dep", "tok.rel", "tok.evt", "tok.dep.changed", "tok.watch", "tok.file.delete", "h.quiescent", "tok.init.error", "tok.acq.count", "h.start")}
+             "C09": ("sched.dep", "tok.rel", "tok.evt", "tok.init", "tok.dep.changed", "tok.watch", "tok.file.delete", "h.quiescent", "tok.init.error", "tok.acq.count", "h.start")}
 
 
-def run(rep, prop, tier, replay_name=None):
+def run(rep, prop, tier, replay_name=None, only=None):
     rep.assumptions.append("E2-token: mini scheduler processes around the real CounterToken (real ipc lock, watchdog observer, reclaim "
                            "threads); jobs are stand-ins holding the job lock; the order of the shared O_APPEND log is the order of events")
-    if replay_name is None and prop != "C06":
+    if replay_name is None and prop != "C06" and not only:
         cfg = "MC_TokenFS_two_TRUE.cfg" if tier == "thorough" else "MC_TokenFS_quick.cfg"
         res = tlc.tlc("MC_TokenFS.tla", cfg, timeout=2400)
         rep.add_tlc(cfg, res, "2 processes, 1 unit, every interleaving of critical sections, observers, reclaim threads, one death")
@@ -25,7 +26,7 @@ def run(rep, prop, tier, replay_name=None):
                 rep.violation(f"{prop}/model/{res.violation[1]}", f"TLC: {res.violation} in {cfg}", {"tlc_tail": res.out[-2500:]})
         elif res.error:
             rep.machinery_failure(f"TLC failed on {cfg}: {res.error}")
-    if replay_name is None:
+    if replay_name is None and not only:
         if prop in ("C06", "C09"):
             # the two steps of a submission (register with the token, first check): the order of the code holds, the other loses a release
             res = tlc.tlc("MC_TokenFS.tla", "MC_TokenFS_addfirst.cfg", timeout=2400)
@@ -38,10 +39,18 @@ def run(rep, prop, tier, replay_name=None):
             rep.add_tlc("MC_TokenFS_checkfirst", res, "the other order (must violate Informed: what the order protects)")
             if not res.violation and not res.error:
                 rep.machinery_failure("MC_TokenFS does not distinguish the two orders of registration and first check")
-    names = [replay_name] if replay_name else [n for n in e2.SCENARIOS if not n.startswith("full") and (prop != "C06" or n in ("contention", "mixed"))]
+            # the token declared again with a larger total while a job waits for it (thorough: and while another one holds it)
+            cfg = "MC_TokenFS_retotal.cfg" if tier == "thorough" else "MC_TokenFS_retotal_quick.cfg"
+            res = tlc.tlc("MC_TokenFS.tla", cfg, timeout=2400)
+            rep.add_tlc(cfg[:-4], res, "total 1 declared again as 3 by the other process; requests 2 and 1")
+            if res.violation:
+                rep.violation(f"{prop}/model/{res.violation[1]}", f"TLC: {res.violation} in {cfg}", {"tlc_tail": res.out[-2500:]})
+            elif res.error:
+                rep.machinery_failure(f"TLC failed on {cfg}: {res.error}")
+    names = [replay_name] if replay_name else list(only) if only else [n for n in e2.SCENARIOS if not n.startswith("full") and (prop != "C06" or n in ("contention", "mixed", "enlarged", "enlarged_while_held"))]
     reps = 1 if replay_name else (2 if tier == "quick" else 12)
     jobs, results = token.run_scenarios(names, reps)
-    if not replay_name:
+    if not replay_name and not only:
         # real experiments (real schedulers, real jobs) sharing the token of the workspace connector
         fj, fr = token.run_scenarios(["full_one_unit", "full_mixed"], 1 if tier == "quick" else 6, workers=4)
         jobs, results = jobs + fj, results + fr
